@@ -145,6 +145,9 @@ typedef struct hx_obs {
     uint32_t q_consumed_total, s_consumed_total;
     int final_in_status, final_out_status;
     int final_susp[2];          /* driver: direction suspended by DATA_OTHER at the end            */
+    uint64_t work_total;        /* cost flavour: metered work of all data calls                    */
+    double work_call_max;       /* max over calls of work / (len + bytes buffered before the call + 64) */
+    uint32_t work_call_max_len, work_call_max_buffered; uint64_t work_call_max_work;
 } hx_obs;
 
 extern hx_obs *hx_cur;               /* observation of the execution in flight */
@@ -174,6 +177,8 @@ void hx_first_diff(const hx_buf *a, const hx_buf *b, char *out, size_t outsz);
 
 /* ---------------------------------------------------------------- seams --------------------- */
 extern int hx_in_lib;            /* >0 while inside a libhtp API call (allocator accounting)   */
+#define HX_WORK_B 60000u          /* constant term of the per-call bound (one-off set-up work such as inflateInit) */
+extern volatile uint64_t hx_work; /* cost flavour: basic blocks executed in libhtp + bytes/16 moved by bulk primitives */
 extern long hx_alloc_seq;        /* allocations made inside libhtp in this execution           */
 extern int64_t hx_live_bytes;    /* live bytes allocated inside libhtp                         */
 void hx_clock_set(long sec, long usec);
